@@ -478,6 +478,9 @@ func run(c Case) (o hx.Outcome) {
 	if degenerate {
 		o.Class("min=max")
 	}
+	if sz.Max > 8<<20 {
+		o.Class("max>8MiB")
+	}
 	if sz.Avg >= 11000 {
 		o.Class("avg>=11000")
 		if ref.Discriminator(sz.Avg) != uint32(float32(sz.Avg)/(float32(-1.42888852e-7)*float32(sz.Avg)+float32(1.33237515))) {
@@ -558,7 +561,7 @@ var spec = &hx.Spec[Case]{
 	Rule: "cases = (blob from pieces: random/zero runs/constant/periodic/repeats at lengths around multiples of min, max and of size/n; (min,avg,max) incl. min=max; worker counts; read fragmentation vector; perturbation vectors for the pchunk.* hook sites); " +
 		"oracle = independent reference chunker (direct 48-byte window buzhash); non-trivial = effective worker count >= 2 and ChunksProduced > ChunksAccepted+1 (workers really overlapped); distinct by (length, sizes, ns, fragmentation, content hash)",
 	Assumptions: []string{"reference chunker reproduces casync's chunker.index (self test)", "schedules are sampled via hook-site perturbation, not enumerated", "buzhash table copied from casync at authoring time"},
-	Required:    []string{"avg>=11000", "avg:precision-sensitive", "controlled-schedule", "zero-run>=3max", "constant-data", "periodic-data", "size<max", "size-0", "effective-n>=2", "workers-overlapped", "fragmented-reads", "span%max==0", "span%max==max/2"},
+	Required:    []string{"avg>=11000", "avg:precision-sensitive", "controlled-schedule", "zero-run>=3max", "constant-data", "periodic-data", "size<max", "size-0", "effective-n>=2", "workers-overlapped", "fragmented-reads", "span%max==0", "span%max==max/2", "max>8MiB"},
 	Gen:         genCase,
 	Run:         run,
 	Journal:     true,
@@ -614,3 +617,30 @@ func TestRegress(t *testing.T) { hx.Regress(t, spec) }
 func TestKnown(t *testing.T)   { hx.Known(t, spec) }
 func TestReplay(t *testing.T)  { hx.Replay(t, spec) }
 func TestProp(t *testing.T)    { hx.Prop(t, spec) }
+
+// TestBig runs a few fixed cases with chunk sizes far above the CLI's defaults (max 16 and 32 MiB,
+// like `-m 1024:4096:16384`): inputs with stretches of many MiB without a hash boundary, where
+// read-buffer and worker-span arithmetic differ from the small sizes the generated search uses.
+func TestBig(t *testing.T) {
+	if hx.Shard() != hx.Shards()-1 {
+		t.Skip()
+	}
+	mib := 1 << 20
+	cases := []Case{
+		{Pieces: []gen.Piece{{Kind: "zero", Len: 20 * mib}, {Kind: "rand", Len: 3 * mib, Seed: 7}, {Kind: "zero", Len: 9*mib + 5}},
+			Sizes: gen.Sizes{Min: 1 << 20, Avg: 4 << 20, Max: 16 << 20}, Ns: []int{1, 2}, Perturb: [][]int{{0}}, StreamN: 2},
+	}
+	if hx.Thorough() {
+		cases = append(cases,
+			Case{Pieces: []gen.Piece{{Kind: "const", Len: 40 * mib, B: 0x5a}, {Kind: "rand", Len: mib, Seed: 9}},
+				Sizes: gen.Sizes{Min: 2 << 20, Avg: 8 << 20, Max: 32 << 20}, Ns: []int{1, 3}, Perturb: [][]int{{0}}, StreamN: 1, SHA256: true},
+			Case{Pieces: []gen.Piece{{Kind: "rand", Len: 30 * mib, Seed: 11}},
+				Sizes: gen.Sizes{Min: 9 << 20, Avg: 9 << 20, Max: 9<<20 + 1}, Ns: []int{1, 4}, Perturb: [][]int{{0}}, StreamN: 3})
+	}
+	for _, c := range cases {
+		if !hx.Case(t, spec, c) {
+			return
+		}
+	}
+	hx.Note("big_size_cases", len(cases))
+}
